@@ -181,12 +181,34 @@ def apply_contract(I, c, qn, args, kwargs, fr, site, finfo=None):
         outcomes = outcomes[1:]
     k = st.choose(len(outcomes)) if len(outcomes) > 1 else 0
     out = outcomes[k]
+    # behaviours ("cases"): evaluated in the pre-state; a case whose guard is provable here is applied
+    # definitionally (fields and result are *assigned* the specified values, keeping rope structure)
+    cases = c.get("cases") or []
+    evaluated = []
+    chosen = None
+    if out == "normal":
+        for case in cases:
+            g = I.truthy(I.E.eval_spec_in(I, case["when"], sf))
+            vals = {"when": g, "post": {}, "result": None}
+            sure = (g is True) or (g is not False and st.proves(g))
+            if g is False:
+                continue
+            for lv, ex in (case.get("post") or {}).items():
+                vals["post"][lv] = I.E.eval_spec_in(I, ex, sf)
+            if "result" in case:
+                vals["result"] = I.E.eval_spec_in(I, case["result"], sf)
+            evaluated.append(vals)
+            if sure:
+                chosen = vals
+                break
     # havoc
     for m in c.get("modifies") or []:
         havoc_lvalue(I, m, sf)
     if out == "normal":
         rt = c.get("returns", "none")
-        if callable(rt):
+        if chosen is not None and chosen["result"] is not None:
+            res = chosen["result"]
+        elif callable(rt):
             res = rt(I, env, sf)
         elif rt == "self":
             res = env.get("self", NONE)
@@ -195,6 +217,19 @@ def apply_contract(I, c, qn, args, kwargs, fr, site, finfo=None):
         else:
             res = I.fresh_of_type(rt, "%s.ret" % short(qn))
         sf.locals["result"] = res
+        if chosen is not None:
+            for lv, v in chosen["post"].items():
+                assign_lvalue(I, lv, v, sf)
+        else:
+            for vals in evaluated:
+                eqs = []
+                if vals["result"] is not None:
+                    eqs.append(zbool(I.equal(res, vals["result"])))
+                for lv, v in vals["post"].items():
+                    cur = read_lvalue(I, lv, sf)
+                    eqs.append(zbool(I.equal(cur, v)))
+                if eqs:
+                    st.assume(z3.Implies(zbool(vals["when"]), z3.And(*eqs)))
         exported = c.get("caller_ensures")
         for lab, e in labelled(c.get("ensures")):
             if exported is not None and lab not in exported:
@@ -236,6 +271,28 @@ def short(qn):
     return ".".join(parts[-2:]) if len(parts) > 2 else qn
 
 
+def read_lvalue(I, expr, sf):
+    base_s, name = expr.rsplit(".", 1)
+    base = I.E.eval_spec_in(I, base_s, sf)
+    if isinstance(base, VRef) and I.st.heap[base.ref].kind == "bytesio":
+        return bio_view(I, base, sf)[name]
+    return I.E.eval_spec_in(I, expr, sf)
+
+
+def assign_lvalue(I, expr, value, sf):
+    from .interp import mangle
+    base_s, name = expr.rsplit(".", 1)
+    base = I.E.eval_spec_in(I, base_s, sf)
+    if not isinstance(base, VRef):
+        raise Unsupported("post %s: base is %s" % (expr, I.type_name(base)))
+    o = I.st.heap[base.ref]
+    if o.kind == "bytesio":
+        bio(I, base)
+        o.fields[name] = value
+        return
+    o.fields[mangle(sf.cls, name)] = value
+
+
 def havoc_lvalue(I, expr, sf):
     """expr: 'self.x' or 'self.a.b'  or 'ghost:name'"""
     st = I.st
@@ -252,7 +309,11 @@ def havoc_lvalue(I, expr, sf):
         raise Unsupported("modifies %s: base is %s" % (expr, I.type_name(base)))
     o = st.heap[base.ref]
     name = mangle(sf.cls, name)
-    if o.kind == "bytesio" or o.kind != "obj":
+    if o.kind == "bytesio":
+        bio(I, base)
+        o.fields[name] = I.fresh_of_type("bytes" if name == "buf" else "nat", "%s.%s!post" % (I.obj_hint(base), name))
+        return
+    if o.kind != "obj":
         o.fields[name] = I.fresh_like(o.fields[name], name)
         return
     ty = I.E.field_type(o.cls, name)
@@ -260,7 +321,7 @@ def havoc_lvalue(I, expr, sf):
         raise Unsupported("modifies %s: undeclared field" % expr)
     if name not in o.init and name not in o.fields:
         o.init[name] = I.fresh_of_type(ty, "%s.%s" % (I.obj_hint(base), name))
-    o.fields[name] = I.fresh_of_type(ty, "%s.%s'" % (I.obj_hint(base), name))
+    o.fields[name] = I.fresh_of_type(ty, "%s.%s!post" % (I.obj_hint(base), name))
 
 
 # ---------------------------------------------------------------------------------- intrinsics
@@ -715,6 +776,7 @@ def _bytesio_new(I, self, args, kw, fr, site):
         raise Unsupported("BytesIO(%s)" % I.type_name(init))
     o.fields["buf"] = VSeq(init.segs, "bytes")
     o.fields["pos"] = VInt(0)
+    o.init["buf"], o.init["pos"] = o.fields["buf"], o.fields["pos"]
     return r
 
 
@@ -782,14 +844,30 @@ def _bio_read(I, self, args, kw, fr, site):
     return out
 
 
+def bio_view(I, ref, fr):
+    """fields dict to read from: the pre-state snapshot inside old(...)"""
+    o = bio(I, ref)
+    if fr.spec and fr.in_old:
+        f = fr
+        while f is not None:
+            if f.old_heap is not None:
+                snap = f.old_heap.get(ref.ref)
+                if snap is not None and "buf" in snap[0]:
+                    return snap[0]
+                if snap is not None or ref.ref in I.st.heap:
+                    return o.init if "buf" in o.init else o.fields
+            f = f.closure
+    return o.fields
+
+
 @intrinsic("bytesio.getvalue")
 def _bio_getvalue(I, self, args, kw, fr, site):
-    return bio(I, self).fields["buf"]
+    return bio_view(I, self, fr)["buf"]
 
 
 @intrinsic("bytesio.tell")
 def _bio_tell(I, self, args, kw, fr, site):
-    return bio(I, self).fields["pos"]
+    return bio_view(I, self, fr)["pos"]
 
 
 @intrinsic("bytesio.seek")
